@@ -246,6 +246,8 @@ def random_world(rng):
             certs[n]['sig'] = 'k' + rng.choice(roots + cn)
         elif y < 0.16:
             certs[n]['kl'] = 'none'
+        elif y < 0.20:
+            certs[n]['sig'] = rng.choice(['hmac', 'unknownsig'])
     # a second certificate of the key name of C1 / C2 (other issuer component): forged, or not retrievable
     twin = {}
     for base in ('C1', 'C2'):
@@ -268,6 +270,8 @@ def random_world(rng):
             pkts[p]['sig'] = 'k' + rng.choice(roots + cn)
         elif y < 0.18:
             pkts[p] = {'kl': 'none', 'sig': rng.choice(['digest', pkts[p]['sig']])}
+        elif y < 0.24:
+            pkts[p]['sig'] = rng.choice(['hmac', 'unknownsig'])     # names the right certificate, unverifiable signature type
         elif pkts[p]['kl'] + 'b' in twin and y < 0.5:
             pkts[p]['kl'] += 'b'                  # signed by the same key, names the other certificate of that key name
     rts = {'two': ['root', 'oproot'], 'twin': ['root', 'root2']}.get(sch, ['root'])
